@@ -193,6 +193,30 @@ func checkList(t ev.TB, check string, c listCase) {
 			fail("RawTable(%#x) returns different bytes", tc.Tag)
 		}
 	}
+	// --- the same through RawTableTo with recycled storage (the documented way to avoid
+	// allocations, used by font.NewFont and the font scanner): the returned slice, not the
+	// storage, is the table; tables are read in two orders so that a short or empty table follows
+	// a longer one and vice versa
+	var buf []byte
+	readTo := func(i int) {
+		tc := c.Tables[i]
+		got, err := ld.RawTableTo(ot.Tag(tc.Tag), buf)
+		if err != nil {
+			fail("RawTableTo(%#x) (length %d) with recycled storage failed: %v", tc.Tag, len(tc.Content), err)
+		}
+		if !bytes.Equal(got, tc.Content) {
+			fail("RawTableTo(%#x) with recycled storage (cap %d): got %d bytes, want the %d bytes written", tc.Tag, cap(buf), len(got), len(tc.Content))
+		}
+		if cap(got) > 0 {
+			buf = got[:cap(got)]
+		}
+	}
+	for i := range c.Tables {
+		readTo(i)
+	}
+	for i := len(c.Tables) - 1; i >= 0; i-- {
+		readTo(i)
+	}
 	// classification
 	residues := map[int]bool{}
 	spare := false
